@@ -40,7 +40,7 @@ RULE = ('Hypothesis op lists: history of 1-14 ops (parse_config of 1-4 generated
         'keys incl. unknown configurable/parameter; probe calls under scopes; finalize; '
         'unlock_config+bind; gin.constant outside/inside interactive_mode(), and blocks of 1-3 '
         'definitions inside one interactive_mode(), over names '
-        '{X,a.X,b.a.X,Y,a.Y,c.Y,K,REQUIRED,invalid}; singleton use through config and through '
+        '{X,a.X,b.a.X,Y,a.Y,c.Y,K,REQUIRED,gin.ext.SEED,gin.X,gin.REQUIRED,x.gin.REQUIRED,invalid}; singleton use through config and through '
         'singleton_value; gin.constants_from_enum on two long-lived module-level enum classes under '
         '3 module names, outside/inside interactive_mode(); parse_config_file of real temp files '
         '(2 paths, optionally including one of 2 other files, optional failing statement in the '
@@ -49,7 +49,9 @@ RULE = ('Hypothesis op lists: history of 1-14 ops (parse_config of 1-4 generated
         'file with a correct include) + 0-8 generated follow-up ops (same op language, outcomes '
         'recorded) + snapshot (which finally generates every pool enum\'s constants under an '
         'unused module name). Plus a bounded sweep of all sequences of <=2 '
-        '(quick) / <=3 (thorough) constant definitions after a fixed parse(import, binding)+singleton-use+call+finalize prefix. '
+        '(quick) / <=3 (thorough) constant definitions over the 8 plain names, plus the gin.* names '
+        'alone and in pairs among themselves (quick) or with every name (thorough), after a fixed '
+        'parse(import, binding)+singleton-use+call+finalize prefix. '
         'Non-trivial = the history executed >=1 probe call, >=1 finalize or failed operation, and '
         '>=1 successful constant definition. Distinct = distinct case JSON.')
 ASSUMPTIONS = [
@@ -58,8 +60,9 @@ ASSUMPTIONS = [
     'the constants that "survive" are those whose gin.constant() call returned without raising '
     'during the history (latest value per name); in the reference they are defined inside '
     'interactive_mode(), the public way to define a name that is a dotted suffix of another',
-    'gin.REQUIRED itself is never re-defined by a history (the property does not say which value '
-    'a re-defined gin.REQUIRED should keep)',
+    'gin.REQUIRED re-defined inside interactive_mode() is an ordinary surviving constant under '
+    'clear_constants=False (the fresh side defines it with the same value); under '
+    'clear_constants=True the fresh side has the sentinel, as the property says',
     'finalize hooks, custom file readers, search paths, dynamic registration and a dangling '
     'enter_interactive_mode() are not part of histories: clear_config does not claim to reset them',
     'config files are real files under one temp directory used by both sides (absolute paths, the '
@@ -79,7 +82,7 @@ FLOORS = {'nontrivial': (0.15, _S), 'pre:locked': (0.1, _S), 'pre:singleton-cach
           'hist:const-interactive-ok': (0.1, _S), 'hist:failed-op': (0.3, _S),
           'clear:constants-kept': (0.3, _S), 'clear:constants-dropped': (0.3, _S),
           'survivors-kept>=1': (0.1, _S), 'obs:final-operative-readable': (0.6, _S),
-          'hist:enum-ok': (0.08, _S), 'hist:pfile-failed': (0.08, _S), 'hist:pfile-ok': (0.05, _S),
+          'hist:const-gin-namespace': (0.05, _S), 'hist:enum-ok': (0.08, _S), 'hist:pfile-failed': (0.08, _S), 'hist:pfile-ok': (0.05, _S),
           'hist:pfile-failed-with-faulty-include': (0.02, _S)}
 TECHNIQUE = ('model-free differential over generated operation histories: state after '
              'history+clear_config vs a fresh fork of the pristine process, compared through one '
@@ -169,12 +172,16 @@ KEYS = ['k1', 'k2', 's']                         # singleton keys (= scope of th
 CONSTS = ['X', 'a.X', 'b.a.X', 'Y', 'a.Y', 'c.Y', 'K', 'REQUIRED']
 BAD_CONSTS = ['1X', 'a..X']
 # operand -> name for definitions: the X family is over-represented so that suffix pairs meet
-CONST_PICK = CONSTS + ['X', 'a.X', 'b.a.X', 'a.X'] + BAD_CONSTS
+# constants in Gin's own namespace: user extensions filed under gin.*, a name that has
+# gin.REQUIRED as a dotted suffix, and gin.REQUIRED itself (re-definable in interactive mode)
+GIN_CONSTS = ['gin.ext.SEED', 'gin.X', 'gin.REQUIRED', 'x.gin.REQUIRED']
+CONST_PICK = CONSTS + ['X', 'a.X', 'b.a.X', 'a.X'] + BAD_CONSTS + GIN_CONSTS   # append only
 MACROS = ['M', 'N']
 ENUM_LOOKUPS = ['pal.Color.RED', 'Color.RED', 'Color.GREEN', 'c20m.Color.GREEN', 'Shape.SQ',
                 'c20.Shape.SQ']
-LOOKUPS = CONSTS + ['gin.REQUIRED', 'c.X', 'b.X'] + MACROS + ENUM_LOOKUPS
-MAC_NAMES = CONSTS + MACROS + ['Color.RED', 'pal.Color.GREEN']   # %names usable in bindings
+LOOKUPS = (CONSTS + ['gin.REQUIRED', 'c.X', 'b.X'] + MACROS + ENUM_LOOKUPS +
+           ['gin.ext.SEED', 'ext.SEED', 'SEED', 'gin.X', 'x.gin.REQUIRED'])         # append only
+MAC_NAMES = CONSTS + MACROS + ['Color.RED', 'pal.Color.GREEN', 'SEED', 'gin.ext.SEED', 'gin.X']
 IMPORTS = ['import math', 'import json as jj', 'from os import path', 'import os.path',
            'from collections import abc as cabc', 'import string']
 FAULTS = ['nope.p = 1', 'c20m.f.p = 1 +', 'c20m.f.zz = 1', 'import c20_no_such_module',
@@ -374,6 +381,10 @@ class Machine:
       self.labels.add('hist:const-suffix-coexist')
     self.defined[name] = (vi % NVALS if isinstance(vi, int) else vi, obj)
     self.labels.add('hist:const-interactive-ok' if interactive else 'hist:const-ok')
+    if name.startswith('gin.'):
+      self.labels.add('hist:const-gin-namespace')
+    if name == 'gin.REQUIRED':
+      self.labels.add('hist:const-gin.REQUIRED-redefined')
 
   def run(self, op):
     k = op[0]
@@ -858,14 +869,22 @@ def sweep_consts(tier):
   prefix = [['parse', [['import', 0], ['bind', 0, 0, 0, ['int', 1]]], None, False],
             ['use_singleton', 1, 0, 1, 0, 0], ['call', 0, 0], ['finalize']]
   follow = [['const', 0, 1, False], ['use_singleton', 0, 0, 0, 0, 0]]
-  alphabet = [(ni, inter) for ni in range(len(CONSTS)) for inter in (False, True)]
+  plain = [(ni, inter) for ni in range(len(CONSTS)) for inter in (False, True)]
+  gin_ns = [(CONST_PICK.index(n), inter) for n in GIN_CONSTS[:3] for inter in (False, True)]
   cases = []
+  seqs = []
   for k in range(1, kmax + 1):
-    for seq in itertools.product(alphabet, repeat=k):
-      # ni < len(CONSTS), so CONST_PICK[ni] == CONSTS[ni]; values are two distinct Tokens
-      hist = prefix + [['const', ni, 7 + (j % 2), inter] for j, (ni, inter) in enumerate(seq)]
-      for cc in (False, True):
-        cases.append({'history': hist, 'clear_constants': cc, 'follow': follow, 'origin': 'sweep'})
+    seqs.extend(itertools.product(plain, repeat=k))
+  # the gin.* names: among themselves up to length 2 (quick), mixed with the plain names (thorough)
+  both = plain + gin_ns
+  seqs.extend((a,) for a in gin_ns)
+  seqs.extend((a, b) for a in both for b in both
+              if (a in gin_ns or b in gin_ns) and (tier == 'thorough' or (a in gin_ns and b in gin_ns)))
+  for seq in seqs:
+    # operands index CONST_PICK; values are two distinct Tokens
+    hist = prefix + [['const', ni, 7 + (j % 2), inter] for j, (ni, inter) in enumerate(seq)]
+    for cc in (False, True):
+      cases.append({'history': hist, 'clear_constants': cc, 'follow': follow, 'origin': 'sweep'})
   return cases, True
 
 
